@@ -44,9 +44,9 @@ COMMON_ASSUME = [
 
 FSM_RULE = ("Real MotionProcessor fed by a scripted parser; cases: (1) ~330 configs (fps 1-3, preview 0-2, trigger 0-3, 0<=min<=max<=3) x all motion bit-strings of length 11 (thorough 16); "
             "(2) same configs x all strings of length 7 (thorough 10) x one disturbance {window closed, disk check fails, file creation fails, bad frame, reset} at every position; "
-            "(3) seeded random scripts (50-2000 events, fps<=9, preview<=5, max<=12s, realistic 3/20 and 10/600 settings) with bad frames, resets and refusals, every fifth one additionally with failing post-trigger WriteFrame calls (5/30/100 %); (4) trigger-position sweep for cap 1..24.")
+            "(3) seeded random scripts (50-2000 events, fps<=9, preview<=5, max<=12s, realistic 3/20 and 10/600 settings) with bad frames, resets and refusals, every fifth one additionally with failing post-trigger WriteFrame calls (5/30/100 %) and failing StopRecording calls (half that rate); (4) trigger-position sweep for cap 1..24.")
 FSM_ASSUME = COMMON_ASSUME + ["the driver aims at motion with a toggling hot pixel, but oracles take the observed MotionDetected callbacks as input"]
-FSM_JOB = {"pkg": "motion", "test": "TestVerif_FSM", "shards": (16, 16), "timeout": (300, 3000), "require": ["recordings", "motion_frames_observed", "post_trigger_write_faults"]}
+FSM_JOB = {"pkg": "motion", "test": "TestVerif_FSM", "shards": (16, 16), "timeout": (300, 3000), "require": ["recordings", "motion_frames_observed", "post_trigger_write_faults", "stop_faults"]}
 
 TH_RULE = ("Real ThrottledRecorder (NewThrottledRecorderWithClock, fake clock) between a scripted caller and a monitor sink. Cases: (1) seeded random schedules from (Start Write* Stop)* with 5..6000 ops, "
            "bucket 1-60 s (and the shipped 600 s), refill 1 s..1 h, min+preview 1-20 s, fps 1-9, wrapped-start failure rate 0/10/40 %; (2) wrapped start failing at call index 0..11; "
@@ -147,12 +147,13 @@ PROPS = {
         "level": "exploration",
         "rule": "Pairs of streams run through two real MotionProcessors in lock-step: base stream (moving hot block with FFC events and resets, or boundary-biased random) and a variant that differs only in border pixels "
                 "(random/extreme/zero values; fixed and dynamic threshold) or only in pixels <= temp-thresh in both (fixed threshold). Compared: per-frame MotionDetected, motion-sink trace incl. trigger threshold, "
-                "and (dynamic) interior background and threshold after every frame. Non-trivial = pair with varied pixels and at least one motion frame.",
+                "and (dynamic) interior background and threshold after every frame. Second job: the C14 pipeline workload (real parsers and handleConn; frames carry random border values incl. zeros on the top and bottom border rows): recordings must equal the reference pipeline's prediction, which ignores the border. Non-trivial = pair with varied pixels and at least one motion frame.",
         "assumptions": COMMON_ASSUME,
         "level_text": "Paired-execution comparator over seeded stream pairs; any divergence in detection, recording boundaries, interior background or dynamic threshold is a violation.",
         "level_note": "edge-pixels = 0 makes the border variant vacuous (only the sub-threshold variant runs there).",
         "technique": "paired-execution comparator",
-        "jobs": [{"pkg": "motion", "test": "TestVerif_C08", "shards": (16, 16), "timeout": (300, 2400), "require": ["pairs_border", "pairs_sub-threshold", "motion_frames", "recordings", "pixels_varied"]}],
+        "jobs": [{"pkg": "motion", "test": "TestVerif_C08", "shards": (16, 16), "timeout": (300, 2400), "require": ["pairs_border", "pairs_sub-threshold", "motion_frames", "recordings", "pixels_varied"]},
+                 {"pkg": "recorder-main", "test": "TestVerif_C14Pipe", "race": True, "shards": (16, 16), "timeout": (600, 3000), "require": ["connections", "frames_verified_in_storage", "motion_files"]}],
     },
     "C09": {
         "title": "No detection during/after FFC; no comparison across an FFC or camera reset",
